@@ -69,7 +69,9 @@ func (s *Server) Start(ctx context.Context, readyFunc func()) {
 		return
 	}
 
-	// Start listener go routine.
+	// Start listener go routine.  The accept loop is counted in the WaitGroup so that Drain cannot
+	// return while a connection may still be accepted and handed to a new session.
+	s.wg.Add(1)
 	go s.serve(ctx)
 	readyFunc()
 
@@ -86,6 +88,8 @@ func (s *Server) Start(ctx context.Context, readyFunc func()) {
 
 // serve is the listen/accept loop.
 func (s *Server) serve(ctx context.Context) {
+	defer s.wg.Done()
+
 	// Handle incoming connections.
 	var tempDelay time.Duration
 	for sid := 1; ; sid++ {
